@@ -1,12 +1,20 @@
 ENGINES = [
     {'name': 'X', 'path': 'lib/xworker.py', 'kind_free_text': 'CrossHair 0.0.110 symbolic execution of the real Python functions (z3 decides every branch), one OS process per condition, vacuity twin per condition, plain-CPython replay of every counterexample',
-     'serves_properties': ['C02', 'C06', 'C09', 'C10', 'C11', 'C13', 'C15', 'C16', 'C17', 'C19']},
+     'serves_properties': ['C02', 'C06', 'C09', 'C10', 'C11', 'C13', 'C15', 'C16', 'C17', 'C18', 'C19']},
     {'name': 'Z', 'path': 'lib/zworker.py', 'kind_free_text': 'z3 sequence-theory queries over SHA-1 pre-image terms recorded by executing the real digest code on symbolic strings (lib/zsym.py); sat models replayed on the real functions with the real hashlib',
      'serves_properties': ['C02', 'C03', 'C07']},
 ]
 NOTES = ('Technique family: solver-based checking of the real code. Every result is bounded; bounds, stubs and '
          'assumptions are in evidence/<id>.json and DESIGN.md. Exit 2 of ./check = harness error (never a verdict).')
 CLAIMS = {
+    'C18': dict(
+        engine='X',
+        technique='CrossHair+z3 enumeration of every package DAG in the bound (edge kinds symbolic) through the real path query evaluator (real grammar, real sqlite graph) against an independent forward reference semantics',
+        text='For every valid DAG over root + 3 packages (quick; + 4 thorough) with each edge absent/direct/indirect and ~500 queries generated from the documented grammar (all 7 axes, exact/glob/wildcard tests, nested, absolute, '
+             'negated, boolean and string predicates, up to 3 steps): the set of selected packages equals the step-by-step forward semantics; every result is reported (once, or with all alternates) with a real root path; '
+             'nullset/nullglob/nullfail treat empty results as documented. The "path passes through the intermediate steps" part is violated by design (recorded known finding) and otherwise checked.',
+        design_ref='DESIGN.md section 4, C18',
+        note='Trusted: specs/xpath_ref.py, stub packages. Outside: aliases, string functions other than comparisons, graphs with more than 4 packages, queries outside the generated list, the pyparsing text->AST step beyond these queries.'),
     'C16': dict(
         engine='X',
         technique='CrossHair+z3 enumeration of recipe histories / workspace states through the real DevelopDirOracle (sqlite), _BobState.getByNameDirectory and bob clean delete-set code',
